@@ -12,7 +12,8 @@ LEVEL = "exploration"
 RULE = ("Hypothesis cases: r = A x - b with m >= n, n<=3, cond(A) <= 100 (repaired by construction, never rejected), "
         "h in {lam*||x||_1, lam*||x||_2}, lam in 1e-3..10, exact prox, lh = lam*sqrt(n) (L1) or lam (L2); unbounded / box "
         "around the regularised minimiser / box that cuts it off / box around x0; calling convention in {closures, argsh+"
-        "argsprox, argsh only, argsprox only}; default budget and rhoend. Reference F* from FISTA with restarts run to a "
+        "argsprox, argsh only, argsprox only}; default budget and rhoend; in a sixth of the cases x0 is the un-regularised "
+        "solution (zero residual at the start), in a sixth the nsamples callback asks for 2 samples. Reference F* from FISTA with restarts run to a "
         "fixed point and certified by an explicit KKT check; uncertified references are discarded and counted. "
         "scaling_within_bounds is excluded by construction (known finding, pinned replay). Non-trivial = the reference "
         "solution has a zero component (the non-smooth part matters), or a bound is active, or an args convention is used.")
@@ -46,6 +47,13 @@ def cases(draw):
     case = {"n": n, "m": m, "fam": "lin", "A": A.tolist(), "b": b, "x0": x0, "lower": None, "upper": None, "scaling": False,
             "npt": draw(st.sampled_from([n + 1, n + 1, min(2 * n + 1, (n + 1) * (n + 2) // 2)])), "rhobeg": None, "rhoend": None,
             "maxfun": None, "up": {}, "np_seed": 0, "reg": {"kind": kind, "lam": lam, "conv": conv}, "tags": []}
+    if m >= n and draw(st.integers(0, 5)) == 0:
+        # warm start from the un-regularised solution: zero residual at x0, so F(x0) = h(x0) > F*
+        case["b"] = A.dot(np.array(x0, dtype=float)).tolist()
+        case["tags"] = ["start:zero-residual"]
+    if draw(st.integers(0, 5)) == 0:
+        case["nsamples"] = {"const": 2}       # averaging (of identical samples: the objective is deterministic); default budget
+        case["tags"] = case["tags"] + ["averaging"]
     box = draw(st.sampled_from(["none", "none", "around", "cut", "x0"]))
     if box != "none":
         xs, _, _ = reference(case)
@@ -65,7 +73,7 @@ def cases(draw):
         rb_default = 0.1 * max(max(abs(v) for v in x0), 1.0)
         if gap < 2 * rb_default:
             case["rhobeg"] = gap / 2.0
-    case["tags"] = ["box:" + box, "conv:" + conv, kind]
+    case["tags"] = case["tags"] + ["box:" + box, "conv:" + conv, kind]
     return case
 
 
